@@ -4,6 +4,7 @@ package main
 
 import (
 	"fmt"
+	"go/token"
 	"go/types"
 	"sort"
 	"strings"
@@ -562,10 +563,52 @@ func (e *Engine) checkDecreases(fr *Frame, st *State, hdr *ssa.BasicBlock, ord i
 		}
 		e.addObligation(st, fr, "decreases", append([]string{"termination"}, d.Tags...), fmt.Sprintf("loop#%d decreases %s", ord, d.Src), fmt.Sprintf("%s:%d", d.File, d.Line), goal, nil)
 	}
+	if !found && e.cfg.Safety && rangeLoopTerminates(fr, hdr) {
+		// `for ... := range slice/array`: the hidden index grows by one per iteration up to a length fixed before the loop
+		return
+	}
 	if !found && e.cfg.Safety {
 		o := e.addObligation(st, fr, "decreases", []string{"termination"}, fmt.Sprintf("loop#%d has no decreases clause: termination not shown", ord), fr.fn.String(), "false", nil)
 		o.Query = preamble + "(assert true)\n"
 	}
+}
+
+// rangeLoopTerminates: hdr is the header of a range-over-slice/array loop as go/ssa builds it -- a range-index phi (see
+// isRangeIndex), and the header leaves the loop unless index+1 < n for an n computed outside the loop.
+func rangeLoopTerminates(fr *Frame, hdr *ssa.BasicBlock) bool {
+	var phi *ssa.Phi
+	for _, in := range hdr.Instrs {
+		if p, ok := in.(*ssa.Phi); ok && isRangeIndex(p) {
+			phi = p
+		}
+	}
+	if phi == nil || len(hdr.Instrs) == 0 {
+		return false
+	}
+	br, ok := hdr.Instrs[len(hdr.Instrs)-1].(*ssa.If)
+	if !ok {
+		return false
+	}
+	cmp, ok := br.Cond.(*ssa.BinOp)
+	if !ok || cmp.Op != token.LSS {
+		return false
+	}
+	inc, ok := cmp.X.(*ssa.BinOp)
+	if !ok || inc.Op != token.ADD || inc.X != ssa.Value(phi) {
+		return false
+	}
+	// the false branch must leave the loop, the bound must be defined outside it
+	body := fr.loops.body[hdr]
+	if len(hdr.Succs) != 2 || body[hdr.Succs[1]] {
+		return false
+	}
+	switch n := cmp.Y.(type) {
+	case *ssa.Const:
+		return true
+	case ssa.Instruction:
+		return n.Block() != nil && !body[n.Block()]
+	}
+	return false
 }
 
 // havocLoop havocs everything the loop body may modify.
